@@ -188,6 +188,7 @@ type Eng struct {
 	localRefs    map[string]bool
 	inlining     map[*ast.FuncLit]bool
 	goOrd        int
+	closAssigned map[types.Object]bool
 	funcIndex    *funcIndex
 	specPkgPath  string
 	recVar       types.Object
